@@ -8,10 +8,10 @@ TECH = 'contract-based deductive verification: CBMC 6.11 code contracts (goto-in
 
 CLAIMS = {
     'C12': dict(
-        text=('Proof, per function: rawBlockSize, FileGraph::fromMem, FileGraphWriter::phase1, OfflineGraph::outIndexs/outEdges/edgeData file positions, OfflineGraphWriter::offsetOfDst/offsetOfData '
+        text=('Proof, per function: rawBlockSize, FileGraph::fromMem, the section windows of FileGraph::partFromFile, FileGraphWriter::phase1, OfflineGraph::outIndexs/outEdges/edgeData file positions, OfflineGraphWriter::offsetOfDst/offsetOfData '
               'and the Endian.h helpers are extracted from the working tree, lowered to C and verified to compute the section offsets of one spec of the documented binary .gr layout '
               '(header, out index at 32, destinations at 32+8n, edge data at align8(32+8n+w*m)) for both versions, odd and even edge counts, every edge-data width: writer offsets equal reader offsets.'),
-        note=('Layout arithmetic only: text parsers, graph-convert transformations, real I/O, fromArrays/toFile write loops, partFromFile, OCFileGraph, BufferedGraph and LC_CSR readGraphFromGRFile are NOT decided. '
+        note=('Layout arithmetic only: text parsers, graph-convert transformations, real I/O, fromArrays/toFile write loops, OCFileGraph, BufferedGraph and LC_CSR readGraphFromGRFile are NOT decided. '
               'Trusted: little-endian host, mmap stub, body slicing for the stream-based offline reader, sizes <= 2^40.')),
     'C13': dict(
         text=('Proof, per function and for all inputs within stated size bounds (sizes <= 2^40..2^62, weights <= 2^20, units <= 2^16): block_range '
